@@ -43,6 +43,7 @@ SHARD_TIMEOUT = {"quick": 600, "thorough": 3000}
 GROUPS = ["basic", "content", "trunc", "kill", "race-together", "race-staggered"]
 QUICK_MODELS = ["tx2", "n1", "zen1"]
 NPROC = 8
+BIG_MODELS = ("icl", "ivb", "snb", "icx", "hsw", "zen2")  # cold load 5-20 s
 
 _home_n = [0]
 
@@ -662,7 +663,8 @@ def g_race(cx, staggered):
     hA, resA = cold_reference(cx)
     cold = resA["reports"]
     # thorough: the home-cache location is raced as well (released-together schedule only, to bound CPU time)
-    rounds = 2 if cx.group_tier == "thorough" and not staggered else 1
+    # (only for models whose cold load is short, see BIG_MODELS: 8 more cold loads of icl/ivb cost minutes of CPU and add no new schedule class)
+    rounds = 2 if cx.group_tier == "thorough" and not staggered and cx.model not in BIG_MODELS else 1
     for rnd in range(rounds):
         where = "data" if (rnd == 0) else "cache"
         h = cx.new_home()
